@@ -18,4 +18,14 @@ theorem callEx_ok : CallOK callEx fsEx := ⟨by decide, by decide, by decide, by
 
 def Hid : Data → Hash := fun d => d
 
+/-- Ops of a run, in execution order. -/
+def traceOf (o : Out) : List Op := o.st.trace.reverse.map (·.op)
+
+/-- Position of the first occurrence of `op` in a trace (its length when there is none).  The examples
+address ops by *what they are*, not by a pinned number, so a harmless reordering of the source keeps them. -/
+def idx (tr : List Op) (op : Op) : Nat := tr.findIdx (fun x => decide (x = op))
+
+/-- A world that injects `e` at every listed step. -/
+def faultsAt (ks : List Nat) (e : Errno) : World := { fault := fun n => if ks.contains n then some e else none }
+
 end Octave.Ex
